@@ -181,6 +181,12 @@ def call_spec(name, w, op):
             w.fek_bad = {'filter_kwargs': {'n_cycles': 5000}}
         return compute_features, [('sig', w.sig), ('fs', fs), ('f_range', fr)], dict(center_extrema=['trough', 'peak'][op % 2], threshold_kwargs=w.th_cyc,
                                                                                        find_extrema_kwargs=w.fek_bad), None
+    if name == 'compute_features[amp,one-dict-twice]':
+        # ONE dict object handed over as both the burst options and the thresholds (min_n_cycles is a key of both)
+        if not hasattr(w, 'both_dict'):
+            w.both_dict = {'min_n_cycles': 2 + op % 3}
+        return compute_features, [('sig', w.sig), ('fs', fs), ('f_range', fr)], dict(center_extrema=w.center, burst_method='amp',
+                                                                                       burst_kwargs=w.both_dict, threshold_kwargs=w.both_dict), None
     if name == 'compute_features[defaults]':
         return compute_features, [('sig', w.sig), ('fs', fs), ('f_range', fr)], dict(center_extrema=w.center), None
     if name == 'compute_cyclepoints':
@@ -285,7 +291,7 @@ CALLS = PRODUCERS + ['compute_shape_features[n_cycles]', 'compute_features[bound
                      'compute_amp_consistency', 'compute_period_consistency', 'compute_monotonicity', 'compute_burst_fraction', 'find_zerox',
                      'extrema_interpolated_phase', 'recompute_edges', 'limit_df', 'epoch_df', 'drop_samples_df', 'plot_burst_detect_summary',
                      'plot_burst_detect_param', 'plot_cyclepoints_df', 'plot_cyclepoints_array', 'plot_feature_hist', 'plot_feature_categorical',
-                     'compute_burst_fraction[float-samples]', 'compute_burst_features[amp,float-samples]', 'plot_burst_detect_summary[flat]',
+                     'compute_burst_fraction[float-samples]', 'compute_burst_features[amp,float-samples]', 'plot_burst_detect_summary[flat]', 'compute_features[amp,one-dict-twice]',
                      'plot_cyclepoints_df[flat]']
 
 
